@@ -29,7 +29,7 @@ RULE = (
     "construction, random ones by SHA-1."
 )
 BUDGET = {
-    "quick": {"examples": 300, "shards": 4, "enum_shards": 8},
+    "quick": {"examples": 600, "shards": 4, "enum_shards": 8},
     "thorough": {"fuzz_runs": 3000, "examples": 5000, "shards": 16, "enum_shards": 16},
 }
 EXHAUSTIVE = {
